@@ -596,6 +596,16 @@ def install_bounded(reg):
                    "it is what turns a failed extraction obligation into a concrete failing problem"})
 
 
+def install_bounded_domain(reg):
+    reg.bounded_checks.setdefault("C18", []).append({
+        "name": "declared-domain", "script": "bounded_domain.py", "timeout": 300,
+        "bound": "domains {continuous, integer, binary} x bounds {none, (0, 5)} x {Variable, VectorVariable(3), MatrixVariable 2x3 / 3x3 / "
+                 "3x3 symmetric} x the views [1:], [::-1], [0], .T, rows, columns, single entries, diagonal; plus one strict solve each "
+                 "(142 cases, exhaustive over this grid)",
+        "why": "the solver front ends are proved against the declared domain of each Variable; that a container's constructor and "
+               "views hand the declared domain and bounds on to its element Variables is code without contracts (matrices.py, views)"})
+
+
 def install_bounded_x0(reg):
     reg.bounded_checks.setdefault("C09", []).append({
         "name": "x0", "script": "bounded_x0.py", "timeout": 300,
@@ -607,6 +617,7 @@ def install_bounded_x0(reg):
 
 def install_scipy(reg, src):
     install_bounded_x0(reg)
+    install_bounded_domain(reg)
     from .compiler_c import NV, IDXS, DOMOF, make_index_map, index_map_of_varlist, names_of_varlist, compiled_fn, point_for
     from .seqtheory import named_exists, named_forall, seqs, _once, skolem, add_index
     FN = sym.fn("F_name", sym.Ref, sym.Name)
@@ -1172,6 +1183,20 @@ def install_scipy_main(reg, src):
                             z3.BoolVal(kw.get("constraints") is ctx["snapshot"]["scipy_constraints"] or kw.get("constraints") == ()), kind="post", props=["C09", "C10"])
                 path.oblige(oid("wiring: method / tol passed through"), z3.BoolVal(kw.get("method") == case["method"] and kw.get("tol") is tol),
                             kind="post", props=["C09"])
+                # the iteration limit reaches SciPy as options["maxiter"] (the key every method reads as its iteration limit), and
+                # optyx adds no option of its own
+                opts = kw.get("options")
+                if opts is None:
+                    path.oblige(oid("wiring: no options unless the caller gave an iteration limit"), maxiter.isnone if isinstance(maxiter, SOpt)
+                                else z3.BoolVal(maxiter is None), kind="post", props=["C09"])
+                elif isinstance(opts, PDict):
+                    mi = opts.items.get("maxiter")
+                    same_mi = mi is not None and isinstance(maxiter, SOpt) and (mi is maxiter.val or (
+                        isinstance(mi, SInt) and isinstance(maxiter.val, SInt) and mi.t.eq(maxiter.val.t)))
+                    path.oblige(oid("wiring: options is exactly {'maxiter': the caller's limit}"),
+                                z3.BoolVal(bool(same_mi) and set(opts.items) == {"maxiter"}), kind="post", props=["C09"])
+                else:
+                    path.oblige(oid("wiring: options is exactly {'maxiter': the caller's limit}"), False, kind="post", props=["C09"])
                 wanth = case["method"] in hess_methods
                 path.oblige(oid("wiring: hess passed exactly for the Hessian methods"), z3.BoolVal((kw.get("hess") is not None) == wanth),
                             kind="post", props=["C09"])
